@@ -116,6 +116,8 @@ fn run(ctx: &mut Ctx) {
     bodies(ctx, &body_arena);
     addresses(ctx);
     special_sizes(ctx);
+    surroundings(ctx, &body_arena);
+    known_types(ctx, &body_arena);
     for total in 0..=max_total {
         let span = round8(total).max(8);
         let p = unsafe { arena.end().sub(span) };
@@ -334,6 +336,93 @@ fn special_sizes(ctx: &mut Ctx) {
                     ctx.state_direct();
                     ctx.nontrivial();
                 });
+            }
+        }
+    }
+}
+
+/// What lies in front of and behind the declared region is not part of it: the verdict is a function of the region's
+/// bytes whatever the neighbouring memory holds (an end-tag image, zeros, another header, a tag header).
+fn surroundings(ctx: &mut Ctx, arena: &Arena) {
+    ctx.bound("surroundings", "regions (no payload; one string tag; one custom tag; two tags) x last 8 bytes {end tag, non-end tag, none} placed 8, 16, 24 and 4104 bytes in front of the guard page, x the 8..24 bytes behind the region and the 8 bytes in front of it drawn from {end-tag image, zeros, 0xB7 fill, a (type 1, size 8) header, a boot-information header image (16, 0)}: the verdict and accessors depend on the region's bytes only");
+    let images: [[u8; 8]; 5] = [[0, 0, 0, 0, 8, 0, 0, 0], [0; 8], [0xB7; 8], [1, 0, 0, 0, 8, 0, 0, 0], [16, 0, 0, 0, 0, 0, 0, 0]];
+    let bodies: [&[(u32, u32)]; 4] = [&[], &[(1, 13)], &[(0x1337, 8)], &[(1, 13), (0x1337, 24)]];
+    for (bi, body) in bodies.iter().enumerate() {
+        for tail in 0..3 {
+            let mut r = vec![0u8; 8];
+            for &(t, sz) in body.iter() {
+                let o = r.len();
+                r.resize(o + round8(sz as usize), 0x61);
+                wr32(&mut r, o, t);
+                wr32(&mut r, o + 4, sz);
+            }
+            match tail {
+                0 => r.extend_from_slice(&[0, 0, 0, 0, 8, 0, 0, 0]),
+                1 => r.extend_from_slice(&[1, 0, 0, 0, 8, 0, 0, 0]),
+                _ => {}
+            }
+            let n = r.len() as u32;
+            wr32(&mut r, 0, n);
+            for gap in [8usize, 16, 24, 4104] {
+                for behind in 0..5 {
+                    for front in 0..5 {
+                        let total = r.len();
+                        let describe = || J::obj().set("part", "surroundings").set("body", bi).set("tail", tail).set("bytes_between_region_and_guard", gap).set("image_behind", J::hex(&images[behind])).set("image_in_front", J::hex(&images[front])).set("region", J::hex(&r));
+                        ctx.leaf(describe, |ctx| {
+                            arena.fill(0xB7);
+                            let off = arena.len() - gap - total;
+                            arena.place_at(off - 8, &images[front]);
+                            let p = arena.place_at(off, &r);
+                            let mut o = off + total;
+                            while o + 8 <= arena.len() && o < off + total + 24 {
+                                arena.place_at(o, &images[behind]);
+                                o += 8;
+                            }
+                            observe(ctx, p, load_verdict(&r, total), total);
+                            ctx.state_direct();
+                            ctx.nontrivial();
+                        });
+                    }
+                }
+            }
+        }
+    }
+}
+
+/// load does not look at the tags: a tag of a specified type whose size is smaller than that type's fixed part (or
+/// otherwise unusable) makes the typed getter fail later, not load.
+fn known_types(ctx: &mut Ctx, arena: &Arena) {
+    ctx.bound("known_types", "regions holding one tag of every type 1..=22 with size in {8, 12, 16, 20, 24, 32} (mostly smaller than the type's fixed part), as the first tag, behind a string tag, or twice; with and without a valid end tag");
+    for typ in 1u32..=22 {
+        for sz in [8u32, 12, 16, 20, 24, 32] {
+            for pos in 0..3 {
+                for valid_end in [true, false] {
+                    let describe = || J::obj().set("part", "known_types").set("type", typ).set("size", sz).set("position", ["first", "behind a string tag", "twice"][pos]).set("valid_end_tag", valid_end);
+                    ctx.leaf(describe, |ctx| {
+                        let mut r = vec![0u8; 8];
+                        let mut push = |r: &mut Vec<u8>, t: u32, s: u32| {
+                            let o = r.len();
+                            r.resize(o + round8(s as usize), 0);
+                            wr32(r, o, t);
+                            wr32(r, o + 4, s);
+                        };
+                        if pos == 1 {
+                            push(&mut r, 1, 13);
+                        }
+                        push(&mut r, typ, sz);
+                        if pos == 2 {
+                            push(&mut r, typ, sz);
+                        }
+                        push(&mut r, if valid_end { 0 } else { 1 }, 8);
+                        let n = r.len();
+                        wr32(&mut r, 0, n as u32);
+                        arena.fill(0xB7);
+                        let p = arena.place_right(&r);
+                        observe(ctx, p, load_verdict(&r, n), n);
+                        ctx.state_direct();
+                        ctx.nontrivial();
+                    });
+                }
             }
         }
     }
